@@ -96,6 +96,13 @@ template<typename K> static void run_op(int op, Reg& reg, const Line& t, Out& o)
     if (!s.is_empty()) { o.R(K::dec(s.get_min_item())); o.R(K::dec(s.get_max_item())); }
     std::vector<std::pair<I, I>> it;
     for (auto i = s.begin(); i != s.end(); ++i) { auto p = *i; it.push_back(std::make_pair(K::dec(p.first), (I)p.second)); }
+    { // every way of walking the sketch must expose the same entries: post-increment, *it++, range-for (each walk bounded by
+      // num_retained + 1 steps); on disagreement the deviating walk is reported and judged like any other exposed listing
+      std::vector<std::pair<I, I>> w1, w2, w3; const size_t lim = (size_t)s.get_num_retained() + 1;
+      for (auto i = s.begin(); i != s.end() && w1.size() <= lim; i++) { auto p = *i; w1.push_back(std::make_pair(K::dec(p.first), (I)p.second)); }
+      for (auto i = s.begin(); i != s.end() && w2.size() <= lim; ) { auto p = *i++; w2.push_back(std::make_pair(K::dec(p.first), (I)p.second)); }
+      for (const auto& p : s) { if (w3.size() > lim) break; w3.push_back(std::make_pair(K::dec(p.first), (I)p.second)); }
+      if (w1 != it) it = w1; else if (w2 != it) it = w2; else if (w3 != it) it = w3; }
     std::sort(it.begin(), it.end());
     o.R((I)it.size());
     for (auto& p : it) { o.R(p.first); o.R(p.second); }
